@@ -355,6 +355,7 @@ def _worker(k):
     nontriv, dist, samples, failures = set(), {}, [], []
     i = k
     done_here = 0
+    mon0 = dict(C01_MON_STATS)      # (forked: counts of the parent so far; what this worker adds goes back with its result)
     while done_here < share and time.time() < deadline and len(failures) < 3:
         batch = []
         for _ in range(40):
@@ -384,7 +385,8 @@ def _worker(k):
                 fails += post(s, a, rt)
             if fails or first_diff(a, b):
                 failures.append(scn_to_json(s))
-    return dict(stats=stats, nontriv=nontriv, dist=dist, samples=samples, failures=failures, next_i=i)
+    return dict(stats=stats, nontriv=nontriv, dist=dist, samples=samples, failures=failures, next_i=i,
+                c01mon={k: C01_MON_STATS[k] - mon0[k] for k in C01_MON_STATS})
 
 
 def _parallel(ctx, profile, target, nontrivial, monitor, post, mutate, expand, tag, jobs, budget):
@@ -403,6 +405,8 @@ def _parallel(ctx, profile, target, nontrivial, monitor, post, mutate, expand, t
         out["samples"] += p["samples"]
         out["failures"] += p["failures"]
         out["next_i"] = max(out["next_i"], p["next_i"])
+        for k, v in p.get("c01mon", {}).items():
+            C01_MON_STATS[k] += v
     return out
 
 
